@@ -163,6 +163,33 @@ func runC11(c *core.Ctx) {
 			if serr := mb.Sign(keys[0].Priv); serr == nil {
 				c.Violation("metadata with a non-integral number was signed", id, detail)
 			}
+			// DSSE: a SetPayload that is refused leaves the envelope as it was
+			{
+				prev := intoto.Link{Type: "link", Name: "previous-content", Materials: map[string]intoto.HashObj{}, Products: map[string]intoto.HashObj{}, ByProducts: map[string]interface{}{}, Command: []string{}, Environment: map[string]interface{}{}}
+				env0 := &intoto.Envelope{}
+				var e0, e1 error
+				if !c.Guard(id, "Envelope.SetPayload (refused content)", detail, func() {
+					if e0 = env0.SetPayload(prev); e0 == nil {
+						e0 = env0.Sign(keys[0].Priv)
+					}
+					if e0 == nil {
+						e1 = env0.SetPayload(v.payload)
+					}
+				}) && e0 == nil && e1 != nil {
+					c.Eval(1)
+					fp := filepath.Join(c.WorkDir, "refused.json")
+					env0.Dump(fp)
+					back, lerr := intoto.LoadMetadata(fp)
+					switch {
+					case normJSON(env0.GetPayload()) != normJSON(prev):
+						c.Violation("a refused SetPayload changed what GetPayload reports, while the signed payload is still the earlier content", id, map[string]any{"reported": json.RawMessage(normJSON(env0.GetPayload())), "earlier": json.RawMessage(normJSON(prev))})
+					case lerr != nil || normJSON(back.GetPayload()) != normJSON(prev) || back.VerifySignature(keys[0].Pub) != nil:
+						c.Violation("after a refused SetPayload the dumped envelope no longer carries the earlier, signed content", id, detail)
+					default:
+						errorsOK++
+					}
+				}
+			}
 			c.End(id)
 			c.Class("nonintegral", string(treeJSON))
 			continue
@@ -519,7 +546,7 @@ func init() {
 	core.Register(&core.Property{
 		ID:    "C11",
 		Level: "exploration",
-		Rule: "seeded links and layouts with every field populated (strings over an alphabet with quotes, backslashes, all kinds of control characters, DEL, U+2028, <>&, non-ASCII, astral and combining characters; nested by-product/environment values: maps, lists, ints, bools, null, integral and non-integral floats; certificate constraints and CA maps present or absent), rendered in parallel as library structs and as a generic tree with the member names of the in-toto specification. Checks per value: byte equality of GetSignableRepresentation with the reference OLPC canonicalisation; 6 re-serialisations of the file (shuffled member order, random whitespace, alternative spellings of integral numbers) give the same bytes; every single-leaf edit gives different bytes (collision set); non-integral numbers are refused; DSSE: SetPayload/Sign/Dump, payload strictly valid JSON, decodes to the set value, LoadMetadata returns the set value and verifies. Read-only calls (ValidateMetablock, GetPayload, Sigs) between signing and verifying must leave the signed bytes and the envelope's payload object as they were. A fifth of the values also with absent (nil) collections: sign, dump, load, verify in both wrappers (no reference bytes there). Re-used objects: after a first Sign+Verify (Metablock) / SetPayload+Sign+Dump (Envelope) the metadata is changed in place through a map or slice it shares with the caller (new product path, new by-product, pubkeys[0], new layout key); the signed bytes must be the canonical JSON of the changed content, the old signature must not verify any more, a new one must verify on a reloaded copy, and a second SetPayload on the same envelope must carry the changed content. " +
+		Rule: "seeded links and layouts with every field populated (strings over an alphabet with quotes, backslashes, all kinds of control characters, DEL, U+2028, <>&, non-ASCII, astral and combining characters; nested by-product/environment values: maps, lists, ints, bools, null, integral and non-integral floats; certificate constraints and CA maps present or absent), rendered in parallel as library structs and as a generic tree with the member names of the in-toto specification. Checks per value: byte equality of GetSignableRepresentation with the reference OLPC canonicalisation; 6 re-serialisations of the file (shuffled member order, random whitespace, alternative spellings of integral numbers) give the same bytes; every single-leaf edit gives different bytes (collision set); non-integral numbers are refused (and a SetPayload that is refused leaves the envelope - GetPayload, the signed payload, the dumped file - as it was); DSSE: SetPayload/Sign/Dump, payload strictly valid JSON, decodes to the set value, LoadMetadata returns the set value and verifies. Read-only calls (ValidateMetablock, GetPayload, Sigs) between signing and verifying must leave the signed bytes and the envelope's payload object as they were. A fifth of the values also with absent (nil) collections: sign, dump, load, verify in both wrappers (no reference bytes there). Re-used objects: after a first Sign+Verify (Metablock) / SetPayload+Sign+Dump (Envelope) the metadata is changed in place through a map or slice it shares with the caller (new product path, new by-product, pubkeys[0], new layout key); the signed bytes must be the canonical JSON of the changed content, the old signature must not verify any more, a new one must verify on a reloaded copy, and a second SetPayload on the same envelope must carry the changed content. " +
 			"non-trivial = value contains a hostile string or an optional member; distinct = hash of the value",
 		Assumptions: []string{"strings are valid UTF-8 (JSON cannot carry anything else)", "all collections are non-nil, so the reference rendering is fixed by the specification's field table (harness/gen/meta.go)", "for DSSE, refusing non-integral numbers is not demanded"},
 		Workers:     func(string) int { return 16 },
